@@ -1,13 +1,15 @@
 #!/bin/sh
-# ./seedtest.sh <patch.diff> <prop> [tier]  — apply a seeded change to /repo, run the check, undo it straight afterwards
+# ./seedtest.sh <patch.diff> <prop> [tier]  — run the check of <prop> against a seeded change.
+# The change is applied in a scratch worktree of /repo's HEAD (outside /repo and /verif) and the checker is pointed at it through
+# VERIF_REPO, so /repo itself is never modified (equivalent to: git -C /repo apply <patch>; ./check <prop>; git -C /repo checkout -- .).
 set -u
 P="$1"; PROP="$2"; TIER="${3:-quick}"
-cp "evidence/$PROP.json" "/tmp/evidence-$PROP.keep" 2>/dev/null
-git -C /repo apply "$(realpath "$P")" || exit 9
-./check "$PROP" --tier "$TIER" > /tmp/seedtest.out 2>&1; RC=$?
-git -C /repo checkout -- .
-[ -f "/tmp/evidence-$PROP.keep" ] && mv "/tmp/evidence-$PROP.keep" "evidence/$PROP.json"
-find /repo -name __pycache__ -path '*mesonbuild*' -prune -exec rm -rf {} + 2>/dev/null
+WT="/tmp/seedwt-$$"
+cp "evidence/$PROP.json" "/tmp/evidence-$PROP.keep.$$" 2>/dev/null
+git -C /repo worktree add -q --detach "$WT" || exit 9
+git -C "$WT" apply "$(realpath "$P")" || { git -C /repo worktree remove --force "$WT"; exit 9; }
+VERIF_REPO="$WT" ./check "$PROP" --tier "$TIER" > /tmp/seedtest.out 2>&1; RC=$?
+git -C /repo worktree remove --force "$WT"
+[ -f "/tmp/evidence-$PROP.keep.$$" ] && mv "/tmp/evidence-$PROP.keep.$$" "evidence/$PROP.json"
 tail -25 /tmp/seedtest.out | cut -c1-400
 echo "exit=$RC"
-git -C /repo status --short | head -3
